@@ -5,7 +5,7 @@ VERIF = os.path.dirname(os.path.dirname(os.path.abspath(__file__)))
 sys.path.insert(0, os.path.join(VERIF, "lib"))
 import props
 
-ALL = ["C%02d" % i for i in range(1, 21)]
+ALL = ["C%02d" % i for i in range(1, 21)]  # _SMOKE is internal
 m = {
     "version": 1,
     "setup_cmd": "bin/setup",
